@@ -1,63 +1,103 @@
 (* C09 — the property theorems, and nothing else. *)
 From Coq Require Import ZArith NArith List Bool Lia.
-From Verif Require Import C09.Model C09.Spec C09.Proofs.
+From Verif Require Import C09.Model C09.Spec C09.Proofs C09.ProofsC.
 Import ListNotations.
 Open Scope Z_scope.
 
-(* WALK, for every history.  Whatever the chain does (growth and
-   reorganisations of any depth between any two ChainSource calls), whatever
-   filter and block fetches fail, whenever Update calls (with or without
-   rewind) arrive and whenever the retry timer fires: if block hashes do not
-   collide and no catch-up step adopted a header that does not build on the
-   current block (ghost flag of finding F10), the callbacks the rescan
-   delivered form a valid walk from its start block — every connected block
-   is a child, one higher, of the block the caller was last told is current,
-   every disconnect removes exactly that block.  [walk_ok] is the monitor that
-   the correspondence run evaluates on the implementation's callbacks. *)
-Theorem C09_walk_unless : forall gid gtime evs,
-  let r := run (init gid gtime) evs in
-  g_coll (gf (fst r)) = false -> g_f10 (gf (fst r)) = false ->
+(* WALK, for every history and every filter oracle.  Whatever the chain does
+   (growth and reorganisations of any depth between any two ChainSource
+   calls, also below the current block while the rescan is catching up),
+   whatever filter and block fetches fail or answer, whenever Update calls
+   (with or without rewind) arrive and whenever the retry timer fires: if
+   block hashes do not collide, the callbacks the rescan delivered form a
+   valid walk from its start block — every connected block is a child, one
+   higher, of the block the caller was last told is current, every disconnect
+   removes exactly that block.  [walk_ok] is the monitor that the
+   correspondence run evaluates on the implementation's callbacks.
+   (Before the repair of finding F10 this held only for histories in which
+   the catch-up branch never adopted a non-child.) *)
+Theorem C09_walk : forall fmatch gid gtime evs,
+  let r := run fmatch (init gid gtime) evs in
+  g_coll (gf (fst r)) = false ->
   walk_ok gid gtime (combine evs (snd r)) = true.
-Proof. exact walk_unless. Qed.
-Print Assumptions C09_walk_unless.
+Proof. exact walk_all. Qed.
+Print Assumptions C09_walk.
 
 (* the boolean walk check is the declarative one *)
 Theorem C09_walk_decl : forall cbs t t', walk_from t cbs = Some t' <-> Walk t cbs t'.
 Proof. exact walk_from_spec. Qed.
 Print Assumptions C09_walk_decl.
 
-(* F10: the faithful model REFUTES the walk half.  Blocks 2,3,4 are announced
-   while catching up; block 4 is replaced by 5,6 before the next
-   GetBlockHeaderByHeight; the rescan announces block 6 (height 4, parent 5)
-   on top of block 4 and never disconnects block 4.  No hash collides. *)
+(* F10 regression: blocks 2,3,4 are announced while catching up; block 4 is
+   replaced by 5,6 before the next GetBlockHeaderByHeight.  The repaired
+   rescan sees that block 6 (height 4, parent 5) does not build on block 4,
+   looks up block 4's parent (3, still on the chain), disconnects block 4 and
+   goes on with 5 and 6. *)
 Definition f10_evs : list ev :=
   [EvExtend 2 100 []; EvExtend 3 100 []; EvExtend 4 100 [];
    EvStart {| cstart := 0; cstartT := 0; cend := 0; caddrs := []; cinputs := [] |};
    TCall ROk; TCall ROk; TCall ROk; TCall ROk; TCall ROk; TCall ROk;
    EvRollback; EvExtend 5 100 []; EvExtend 6 100 [];
-   TCall ROk; TCall ROk]%N.
-Theorem C09_refuted : exists evs,
-  let r := run (init 1 0) evs in
-  g_coll (gf (fst r)) = false /\ walk_ok 1 0 (combine evs (snd r)) = false.
-Proof. exists f10_evs. vm_compute. split; reflexivity. Qed.
-Print Assumptions C09_refuted.
+   TCall ROk; TCall ROk; TCall ROk; TCall ROk; TCall ROk; TCall ROk; TCall ROk]%N.
+Example C09_f10_regression :
+  let r := run matches (init 1 0) f10_evs in
+  holds 1 0 (combine f10_evs (snd r)) = true /\
+  callbacks (combine f10_evs (snd r)) =
+    [CbConn 2 1 1 []; CbConn 3 2 2 []; CbConn 4 3 3 [];
+     CbDisc 4 3 3; CbConn 5 3 3 []; CbConn 6 5 4 []]%N.
+Proof. vm_compute. split; reflexivity. Qed.
 
-(* COMPLETENESS, partial.  Proved: (1) what extractBlockMatches delivers for a
-   fetched block, and the watch state it leaves, are exactly the relevant
-   transactions and the grown watch state of the specification (addresses and
-   outpoints only); (2) skipping a block whose honest filter matches nothing
-   on the filter watch list loses nothing, provided watched inputs carry the
-   script of their outpoint.  Missing: the invariant that carries (1) and (2)
-   through every step of the rescan machine (retry queue, rewinds, start
-   time latch) up to [complete_ok] of whole traces; that part is checked on
-   every implementation trace by the correspondence run only. *)
-Theorem C09_complete_partial_match : forall txs x,
+(* COMPLETENESS, for every history.  For every filter oracle without false
+   negatives (a watched script that occurs among the output scripts or spent
+   scripts of the block is matched; false positives are allowed), whatever
+   the chain does, whatever fetches fail, whenever Update calls (adding
+   addresses or inputs, with or without rewind) arrive and whenever the retry
+   timer fires: if block hashes do not collide, every outpoint has one script
+   (inputs of blocks and watched inputs given by the caller carry the script
+   of the outpoint they name) and the filter fetch of the catch-up branch was
+   never answered "hash not found" (ghost flag g_nf: rescan.go then announces
+   the block without looking at it), then every connected callback carries
+   exactly the transactions of that block that pay an address watched at that
+   moment or spend an outpoint watched at that moment — the addresses and
+   inputs given at Start, added by every Update call that had returned, and
+   every output that an earlier callback of this rescan found paying a watched
+   address, rewinds included — or carries nothing while no connected block has
+   been later than the start time.  [complete_ok] is the monitor that the
+   correspondence run evaluates on the implementation's callbacks. *)
+Theorem C09_complete_unless : forall fmatch,
+  (forall wl b sc, In sc wl -> In sc (block_scripts b) -> fmatch wl b = true) ->
+  forall gid gtime evs,
+  let r := run fmatch (init gid gtime) evs in
+  g_coll (gf (fst r)) = false -> g_nf (gf (fst r)) = false ->
+  scripts_ok evs ->
+  complete_ok gid gtime (combine evs (snd r)) = true.
+Proof. exact complete_unless_scripts. Qed.
+Print Assumptions C09_complete_unless.
+
+(* both halves: the monitor [holds] of the correspondence run accepts every
+   model trace under the hypotheses above *)
+Theorem C09_holds_unless : forall fmatch,
+  (forall wl b sc, In sc wl -> In sc (block_scripts b) -> fmatch wl b = true) ->
+  forall gid gtime evs,
+  let r := run fmatch (init gid gtime) evs in
+  g_coll (gf (fst r)) = false -> g_nf (gf (fst r)) = false ->
+  scripts_ok evs ->
+  holds gid gtime (combine evs (snd r)) = true.
+Proof. exact holds_unless. Qed.
+Print Assumptions C09_holds_unless.
+
+(* the two facts about matching the invariant rests on: what
+   extractBlockMatches delivers for a fetched block, and the watch state it
+   leaves, are the relevant transactions and the grown watch state of the
+   specification; skipping a block none of whose scripts is on the filter
+   watch list loses nothing *)
+Theorem C09_extract_is_scan : forall txs x,
   fst (extract x txs) = fst (scan (proj_watch x) txs) /\
   proj_watch (snd (extract x txs)) = snd (scan (proj_watch x) txs).
 Proof. exact extract_scan. Qed.
-Print Assumptions C09_complete_partial_match.
+Print Assumptions C09_extract_is_scan.
 
-Theorem C09_complete_partial_filter : forall scr txs x,
+Theorem C09_unmatched_block_irrelevant : forall scr txs x,
   watch_closed x ->
   (forall i, In i (winputs x) -> snd i = scr (fst i)) ->
   (forall t, In t txs -> forall i, In i (tins t) -> snd i = scr (fst i)) ->
@@ -65,13 +105,19 @@ Theorem C09_complete_partial_filter : forall scr txs x,
      ~ In sc (touts t) /\ ~ In sc (map snd (tins t))) ->
   extract x txs = ([], x).
 Proof. exact nomatch_norelevant. Qed.
-Print Assumptions C09_complete_partial_filter.
+Print Assumptions C09_unmatched_block_irrelevant.
 
-(* Non-vacuity: a history with a catch-up, a subscription, a failed filter
-   fetch that is retried, a reorganisation at the tip while current (one
-   disconnect, two connects), an update with rewind and a transaction paying
-   a watched address whose output is spent two blocks later meets the
-   hypotheses, is accepted by both monitors and delivers the transactions. *)
+(* Non-vacuity.  The hypotheses are satisfiable: the honest filter has no
+   false negatives, and so has the filter that matches everything.  A history
+   with a catch-up, a subscription, a failed filter fetch that is retried, a
+   reorganisation at the tip while current (one disconnect, two connects), an
+   update with rewind and a transaction paying a watched address whose output
+   is spent two blocks later meets all hypotheses of the theorems, is accepted
+   by both monitors and delivers the transactions — with either filter. *)
+Example C09_honest_filter_ok : forall wl b sc,
+  In sc wl -> In sc (block_scripts b) -> matches wl b = true.
+Proof. exact matches_complete. Qed.
+
 Definition t1 : tx := {| txid := 101; tins := [((900, 0), 2)]; touts := [7] |}%N.
 Definition t2 : tx := {| txid := 102; tins := [((101, 0), 7)]; touts := [3] |}%N.
 Definition nv_evs : list ev :=
@@ -89,12 +135,35 @@ Definition nv_evs : list ev :=
    TRecvNtfn; TRecvNtfn; TCall ROk; TCall ROk; TRecvNtfn; TCall ROk; TCall ROk;
    EvUpdate {| uaddrs := [3%N]; uinputs := []; urewind := 3 |};
    TCall ROk; TCall ROk; TCall ROk; TCall ROk; TCall ROk]%N.
+
+Definition nv_scr (o : outpoint) : N :=
+  (if op_eqb o (900, 0) then 2 else if op_eqb o (101, 0) then 7
+   else if op_eqb o (102, 0) then 3 else 0)%N.
+
+Example C09_nonvacuous_scripts : scripts_ok nv_evs.
+Proof.
+  exists nv_scr. intros e He. cbn in He.
+  repeat (destruct He as [<-|He]; [cbn; auto|]); try contradiction.
+  all: intros t [<-|[]]; split;
+    [ intros i [<-|[]]; reflexivity
+    | intros [|k] sc H; cbn in H; [inversion H; reflexivity | destruct k; discriminate] ].
+Qed.
+
 Example C09_nonvacuous :
-  let r := run (init 1 0) nv_evs in
-  g_coll (gf (fst r)) = false /\ g_f10 (gf (fst r)) = false /\ g_nf (gf (fst r)) = false /\
+  let r := run matches (init 1 0) nv_evs in
+  g_coll (gf (fst r)) = false /\ g_nf (gf (fst r)) = false /\
   holds 1 0 (combine nv_evs (snd r)) = true /\
   callbacks (combine nv_evs (snd r)) =
     [CbConn 2 1 1 []; CbConn 3 2 2 [101]; CbConn 4 3 3 []; CbConn 5 4 4 [102];
      CbDisc 5 4 4; CbConn 6 4 4 []; CbConn 7 6 5 [];
      CbDisc 7 6 5; CbDisc 6 4 4; CbConn 6 4 4 []]%N.
 Proof. vm_compute. repeat split; reflexivity. Qed.
+
+(* a filter with false positives only: every block is fetched, same callbacks *)
+Example C09_nonvacuous_false_positives :
+  let fm := fun (_ : list N) (_ : block) => true in
+  (forall wl b sc, In sc wl -> In sc (block_scripts b) -> fm wl b = true) /\
+  let r := run fm (init 1 0) (nv_evs ++ [TCall ROk; TCall ROk]) in
+  g_coll (gf (fst r)) = false /\ g_nf (gf (fst r)) = false /\
+  holds 1 0 (combine (nv_evs ++ [TCall ROk; TCall ROk]) (snd r)) = true.
+Proof. split; [reflexivity|]. vm_compute. repeat split; reflexivity. Qed.
